@@ -7,5 +7,5 @@ CHECKS = {
     "C01": S.check_c01, "C02": S.check_c02, "C07": S.check_c07, "C13": S.check_c13,
     "C15": S.check_c15, "C16": S.check_c16,
     "C05": W.check_c05, "C06": W.check_c06, "C03": W.check_c03, "C17": W.check_c17,
-    "C09": A.check_c09, "C08": A.check_c08, "C14": A.check_c14, "C10": A.check_c10, "C12": A.check_c12, "C11": A.check_c11, "C04": A.check_c04, "C18": D.check_c18,
+    "C09": A.check_c09, "C08": A.check_c08, "C14": A.check_c14, "C10": A.check_c10, "C12": A.check_c12, "C11": A.check_c11, "C04": A.check_c04, "C19": A.check_c19, "C18": D.check_c18,
 }
